@@ -30,6 +30,7 @@ from pyvc.spec import Registry  # noqa: E402
 from pyvc.verify import Verifier, discharge_all  # noqa: E402
 
 ALL_PROPS = [f"C{i:02d}" for i in range(1, 21)]
+INTERNAL_KINDS = {"invariant", "annotation", "termination", "yields"}
 
 
 def _module_info(pid):
@@ -227,15 +228,21 @@ def main():
         solver_s += sum(r["seconds"] for r in rs)
         for r in rs:
             backends[r["backend"]] = backends.get(r["backend"], 0) + 1
+        # Obligations that only structure the proof (loop invariants, proof-step annotations, variants, per-iteration yield
+        # descriptions) are NOT clauses of the property: when one of them stops being provable after an edit, the proof is
+        # incomplete (exit 2) - the code may simply have been refactored - and only the bounded stand-in or an externally
+        # meaningful obligation (postcondition, precondition at a call, frame / ownership, safety, exception flow, lemma) can
+        # turn that into a violation.
+        internal = all(r.get("kind") in INTERNAL_KINDS for r in rs)
         if all(r["verdict"] == "unsat" for r in rs):
             discharged.append(name)
-        elif any(r["verdict"] == "sat" for r in rs):
+        elif any(r["verdict"] == "sat" for r in rs) and not internal:
             failed.append((name, [r for r in rs if r["verdict"] == "sat"][0]))
         else:
             bad = [r for r in rs if r["verdict"] != "unsat"][0]
             fn = name.split("/")[1]
             changed = any(k.endswith(":" + fn) and baseline["sha"].get(k) not in (None, h) for k, h in sha_now.items())
-            if name in baseline["discharged"] and changed:
+            if name in baseline["discharged"] and changed and not internal:
                 failed.append((name, bad))  # passed on the unchanged tree, source changed, no longer provable
             else:
                 undecided.append((name, bad))
